@@ -120,7 +120,8 @@ Proof. exact wit_rej_ok. Qed.
 (* REFUTED for more than one batch: an undecodable file aborts only its own batch, later batches are
    still replayed (witness with batch size 2 in place of 1000; chain 1..5, file of 2 torn): 3, 4, 5 are
    replayed without 2, the node ends on the disconnected chain 3-4-5, block 1 is off the longest chain
-   and the torn file is deleted; with a single batch only block 1 is replayed *)
+   and the torn file is deleted; with a single batch only block 1 is replayed.  Reproduced on the real
+   code with 1004 files (harness c12, finding undecodable-file-aborts-only-its-batch) *)
 Theorem C12_batch_abort_gap_refuted :
   hashes_p (load_order 2 (disk_after wit_gap_j 5 true)) = [1; 3; 4; 5]
   /\ orphan_free_b wc (map p_b wit_gap_W) (init wc) (map p_b (load_order 2 (disk_after wit_gap_j 5 true))) = false
